@@ -1407,7 +1407,7 @@ impl ValidationCache {
     ) -> Option<Result<RrsetProof, ProofError>> {
         let (ttl, cached) = self.inner.lock().get_mut(key)?.clone();
 
-        if Instant::now() < ttl {
+        if cache_now() < ttl {
             debug!(
                 name = ?context.key.name,
                 record_type = ?context.key.record_type,
@@ -1457,7 +1457,7 @@ impl ValidationCache {
         self.inner.lock().insert(
             key,
             (
-                Instant::now() + Duration::from_secs(first_record.ttl.into()).clamp(min, max),
+                cache_now() + Duration::from_secs(first_record.ttl.into()).clamp(min, max),
                 proof.clone(),
             ),
         );
@@ -1986,12 +1986,33 @@ const MAX_RRSIGS_PER_RRSET: usize = 8;
 /// recursor response cache
 const DEFAULT_VALIDATION_CACHE_SIZE: usize = 1_048_576;
 
+/// The clock of the validation cache.
+#[cfg(not(hickory_dns_verif))]
+#[inline]
+fn cache_now() -> Instant {
+    Instant::now()
+}
+
+/// The clock of the validation cache; with `--cfg hickory_dns_verif` it can be moved forward
+/// together with the validator clock (`verif::CACHE_CLOCK_OFFSET_SECS`).
+#[cfg(hickory_dns_verif)]
+fn cache_now() -> Instant {
+    Instant::now()
+        + Duration::from_secs(
+            verif::CACHE_CLOCK_OFFSET_SECS.load(core::sync::atomic::Ordering::SeqCst),
+        )
+}
+
 /// Verification hooks, compiled only with `--cfg hickory_dns_verif`: direct access to the
 /// private denial-of-existence decision procedures for exhaustive small-scope checking.
 #[cfg(hickory_dns_verif)]
 pub mod verif {
     use super::{NSEC, Name, Proof, Query, Record, ResponseCode};
     use crate::proto::dnssec::rdata::NSEC3;
+
+    /// Seconds added to the monotonic clock the validation cache reads
+    pub static CACHE_CLOCK_OFFSET_SECS: core::sync::atomic::AtomicU64 =
+        core::sync::atomic::AtomicU64::new(0);
 
     /// Calls the private `verify_nsec`
     pub fn verify_nsec(
